@@ -61,6 +61,7 @@ func genPlanC14(rt *rapid.T) *RPlan {
 			if ungated && rapid.Bool().Draw(rt, "this-ungated") {
 				n.Kind = "lost"
 			}
+			n.Status = rapid.SampledFrom([]int{0, 0, 0, 1, 2, 3, 0xfc, 0xff}).Draw(rt, "device-state")
 			n.Count = rapid.SampledFrom([]int{0, 1, 1, 2, 3, cp - 1, cp, cp + 1, 2 * cp, 65535}).Draw(rt, "count")
 			if n.Count < 0 {
 				n.Count = 0
@@ -174,7 +175,7 @@ func genPlanC13(rt *rapid.T) *RPlan {
 			tag++
 		}
 	}
-	wait := rapid.SampledFrom([]int{0, 1, 5, 20, 30, 49, 50, 51, 120, 500, 65535}).Draw(rt, "wait")
+	wait := rapid.SampledFrom([]int{0, 1, 5, 20, 30, 49, 50, 51, 120, 255, 256, 257, 260, 300, 500, 512, 1024, 65535}).Draw(rt, "wait")
 	ctl := rapid.IntRange(0, 1).Draw(rt, "ctl")
 	switch p.Scenario {
 	case "pacing":
